@@ -185,6 +185,46 @@ for _name in ('AND', 'OR'):
             call=andor_call(_name, False), native_call=andor_call(_name, True), bounded_domain_cap=200))
 
 
+# ---- AND / OR over a RANGE argument: the cells of the range count like separate arguments, an error cell is the result ---------------------
+def andor_range_call(name, native):
+    def call(it, fn, a, b, c):
+        log = []
+        itx = None if native else it
+        arr = T().Array([[a], [b], [c]])
+        args = [thunk(itx, 0, arr, log)]
+        res = _fn(name)(*args) if native else it.call(_fn(name), args, {})
+        return res, tuple(log)
+    if native:
+        return lambda fn, *vals: call(None, fn, *vals)
+    return call
+
+
+def andor_range_ens(name):
+    def ens(a, b, c, out):
+        if out.kind != 'ret':
+            return False
+        r = R(out)
+        if r.log != [0]:
+            return False                                   # the range is evaluated exactly once
+        clauses = []
+        for cond, kind, payload, upto in andor_expected(name, [a, b, c]):
+            ok = (r.value is payload) if kind == 'err' else boolean_result(_as_out(r.value), payload)
+            clauses.append(Implies(cond, ok))
+        return And(*clauses)
+    return ens
+
+
+for _name in ('AND', 'OR'):
+    UNITS.append(Unit(
+        id=f'C10/logical.{_name}/range', target=f'{MOD}:{_name}', fork='product',
+        inputs=[(f'c{i}', Fork([Xl('Boolean', 'bool'), Xl('Number', 'int', domain=[0, 1, 5]), XlBlank(), XlErr('DivZeroExcelError')])) for i in range(3)],
+        # (a range of blanks only is not in the statement)
+        requires=lambda a, b, c: not all(isinstance(x, T().Blank) for x in (a, b, c)),
+        cases=[Case(f'{_name} over a 3-cell range = the connective over the truth values of its non-blank cells in order; an error cell met before the result is decided is the result',
+                    lambda *a: True, andor_range_ens(_name))],
+        call=andor_range_call(_name, False), native_call=andor_range_call(_name, True), bounded_domain_cap=120))
+
+
 # ---- NOT -----------------------------------------------------------------------------------------------------------------
 def not_call(native):
     def call(it, fn, v):
